@@ -44,6 +44,10 @@ struct Plan {
     yield_sleep_ms: u32,
     #[serde(default)]
     salt: u64,
+    /// the initial processes all carry the same process number with serials 0, 1, 2, ...: what the
+    /// allocator hands out to processes spawned a full cycle (2^20 allocations) apart
+    #[serde(default)]
+    same_number: bool,
 }
 
 pub struct C18;
@@ -128,7 +132,10 @@ impl Scenario for C18 {
             yield_mask: r.next_u64() | r.next_u64(),
             yield_sleep_ms: *r.pick(&[0u32, 1, 3]),
             salt: r.next_u64(),
+            same_number: false,
         };
+        let mut p = p;
+        p.same_number = !behaviours && r.chance(1, 5);
         serde_json::to_value(p).unwrap()
     }
 
@@ -158,7 +165,7 @@ impl Scenario for C18 {
             components_stubbed: &["EPMD (stub; Node::start must register first)", "Process handlers (instrumented recorders; the behaviour callbacks are instrumented too)"],
             assumptions: &["link/unlink operations on one pair and monitor/demonitor operations on one (watcher, target) pair are issued by a single driver task, so their order is known; everything else is concurrent", "a process's death is an interval from the failing handler event to the drop of the process object; operations overlapping it may or may not take effect"],
             fault_prefixes: &["fault.", "proc."],
-            expected_probes: &["probe.c18.delivered", "probe.c18.exit_notified", "probe.c18.monitor_notified", "probe.c18.no_notice_after_unlink", "probe.c18.dead_pid_rejected", "probe.c18.name_of_dead_process_free", "probe.c18.name_history_linearizable", "probe.c18.send_name_delivered", "probe.c18.backpressure_burst", "probe.c18.gen_call_replied", "probe.c18.gen_event_notified", "probe.c18.spawned_mid_history", "probe.c18.stale_identifier_used", "probe.c18.notice_after_long_full_mailbox", "probe.c18.monitors_2_pow_k_references_apart", "probe.c18.call_in_the_name_of_a_failed_client", "probe.c18.sent_through_the_process_handle"],
+            expected_probes: &["probe.c18.delivered", "probe.c18.exit_notified", "probe.c18.monitor_notified", "probe.c18.no_notice_after_unlink", "probe.c18.dead_pid_rejected", "probe.c18.name_of_dead_process_free", "probe.c18.name_history_linearizable", "probe.c18.send_name_delivered", "probe.c18.backpressure_burst", "probe.c18.gen_call_replied", "probe.c18.gen_event_notified", "probe.c18.spawned_mid_history", "probe.c18.stale_identifier_used", "probe.c18.notice_after_long_full_mailbox", "probe.c18.monitors_2_pow_k_references_apart", "probe.c18.call_in_the_name_of_a_failed_client", "probe.c18.sent_through_the_process_handle", "probe.c18.live_processes_with_the_same_number"],
         }
     }
 }
@@ -233,12 +240,12 @@ impl Process for Rec {
 const NAP_BASE: usize = 5000;
 
 /// An identifier that differs from `p` in exactly one of creation, serial, node name.
-fn stale_variant(p: &ExternalPid, how: u32) -> ExternalPid {
+fn stale_variant(p: &ExternalPid, how: u32, far_serial: bool) -> ExternalPid {
     match how % 5 {
         4 if p.creation != 0 => ExternalPid::new(p.node.clone(), p.id, p.serial, 0),
         0 | 4 => ExternalPid::new(p.node.clone(), p.id, p.serial, p.creation.wrapping_add(1)),
         1 => ExternalPid::new(p.node.clone(), p.id, p.serial, p.creation ^ 0x8000_0000),
-        2 => ExternalPid::new(p.node.clone(), p.id, p.serial.wrapping_add(1), p.creation),
+        2 => ExternalPid::new(p.node.clone(), p.id, p.serial.wrapping_add(if far_serial { 1000 } else { 1 }), p.creation),
         _ => ExternalPid::new(Atom::new("ghost@sim"), p.id, p.serial, p.creation),
     }
 }
@@ -294,6 +301,13 @@ async fn procs(w: &Arc<World>, p: &Plan) {
     let hist: Hist = Arc::new(Mutex::new(History::default()));
     let mut pids: Vec<ExternalPid> = Vec::new();
     for i in 0..p.n_procs as usize {
+        if p.same_number && i > 0 {
+            // as if a full cycle of the number space had gone by since the previous spawn
+            let a = node.verif_pid_allocator();
+            a.next_id_test_only().store(pids[0].id, std::sync::atomic::Ordering::SeqCst);
+            a.next_serial_test_only().fetch_add(1, std::sync::atomic::Ordering::SeqCst);
+            w.stat("probe.c18.live_processes_with_the_same_number");
+        }
         match node.spawn(Rec { idx: i, hist: hist.clone(), world: w.clone(), stall_16: p.proc_stall_16 }).await {
             Ok(pid) => pids.push(pid),
             Err(e) => {
@@ -330,6 +344,7 @@ async fn procs(w: &Arc<World>, p: &Plan) {
         let next_late = next_late.clone();
         let naps = naps.clone();
         let stall_16 = p.proc_stall_16;
+        let same_number = p.same_number;
         handles.push(tokio::spawn(async move {
             for (k, op) in ops.iter().enumerate() {
                 if op.kind == "spawn" {
@@ -403,7 +418,7 @@ async fn procs(w: &Arc<World>, p: &Plan) {
                         // an identifier with the numbers of a live process but another creation, serial or node
                         let body = body_for(ti, k, 0, &format!("x{}", a));
                         rec.body = Some(body.clone());
-                        let target = stale_variant(&pids[a], op.b);
+                        let target = stale_variant(&pids[a], op.b, same_number);
                         rec.inv = next_seq(&hist);
                         let r = node.send(&target, from_val(&body)).await;
                         rec.ret = next_seq(&hist);
@@ -415,7 +430,7 @@ async fn procs(w: &Arc<World>, p: &Plan) {
                     }
                     "monitor_stale" => {
                         // somebody else's identifier (same numbers as process a) watches b: a must never hear of it
-                        let watcher = stale_variant(&pids[a], op.b);
+                        let watcher = stale_variant(&pids[a], op.b, same_number);
                         rec.inv = next_seq(&hist);
                         let r = node.monitor(&watcher, &pids[b]).await;
                         rec.ret = next_seq(&hist);
@@ -426,7 +441,7 @@ async fn procs(w: &Arc<World>, p: &Plan) {
                         w.stat("probe.c18.stale_identifier_used");
                     }
                     "link_stale" => {
-                        let (x, y) = if op.b & 4 == 0 { (stale_variant(&pids[a], op.b), pids[b].clone()) } else { (pids[a].clone(), stale_variant(&pids[b], if op.b & 1 == 0 { 4 } else { 1 })) };
+                        let (x, y) = if op.b & 4 == 0 { (stale_variant(&pids[a], op.b, same_number), pids[b].clone()) } else { (pids[a].clone(), stale_variant(&pids[b], if op.b & 1 == 0 { 4 } else { 1 }, same_number)) };
                         rec.inv = next_seq(&hist);
                         let r = node.link(&x, &y).await;
                         rec.ret = next_seq(&hist);
